@@ -146,6 +146,7 @@ def Exec.loop (e : Exec) (first : Bool) : Nat → Exec × String
       let e := e.say (";L" ++ (if first then showState e.w 0 1 else showState e.w e.nch e.nfib))
       let e := (e.doStep .timers).1
       let e := e.runPhase 4096
+      let e := (e.doStep .poll).1
       -- poll phase: nothing but suspended fibers left => epoll_wait would never return
       if e.w.runq.isEmpty ∧ e.w.timers.isEmpty ∧ e.w.listeners > 0 then (e, "idle-forever")
       else e.loop false fuel
